@@ -25,14 +25,12 @@ Definition ts_cmp (a b : bytes) : comparison :=
   | c => c
   end.
 
-(* RangeScanIterator::new: an EMPTY start key is treated as "start from the beginning", whatever
-   the kind of the bound (`if start_key.is_empty() { 0 }` both for the descent and for the index in
-   the leaf).  With Included that is the same thing; with Excluded it returns the entry stored under
-   the empty key although the bound excludes it. *)
+(* RangeScanIterator::new (repaired, fix 83ce498): an EMPTY start key means "start from the beginning" for an
+   Included bound (nothing sorts below the empty key) — the descent and the leaf index skip the comparator;
+   for an Excluded bound the leading entries stored under the empty key are skipped. *)
 Definition bpt_lo (lo : bound bytes) : bound bytes :=
   match lo with
   | Incl [] => Unb
-  | Excl [] => Unb
   | b => b
   end.
 Definition bpt_range {V} (cmp : bytes -> bytes -> comparison) (lo hi : bound bytes) (m : omap bytes V) : omap bytes V :=
